@@ -337,7 +337,7 @@ func c21RRBroadcast(t *testing.T, r *vsched.Report) {
 // ---------------------------------------------------------------------------------------------
 
 func c21FanOut(t *testing.T, r *vsched.Report) {
-	depth := vsched.Pick(4, 5)
+	depth := vsched.Pick(4, 6)
 	sizes := vsched.Pick([]int{1, 2, 3, 4}, []int{1, 2, 3, 4, 5, 6})
 	ops := []byte("BbUD") // B: broadcast + settle, b: broadcast without settling (burst), U: pool +1, D: pool -1
 	e := vsched.NewEnum("fanout", map[string]any{"initial_sizes": fmt.Sprint(sizes), "ops": "B broadcast+settle, b broadcast (burst, settle later), U AdjustRouterPoolSize(+1), D AdjustRouterPoolSize(-1)", "max_ops": depth,
@@ -483,8 +483,8 @@ func c21Owners(ring *consistentHashRing, keys []string) []string {
 }
 
 func c21HashRing(r *vsched.Report) {
-	universe := vsched.Pick(4, 6)
-	nKeys := vsched.Pick(128, 1024)
+	universe := vsched.Pick(4, 7)
+	nKeys := vsched.Pick(128, 2048)
 	vnodes := []int{0, 1, 3, 150} // 0 = default (150)
 	keys := c21Keys(nKeys)
 	members := make([]string, universe)
@@ -583,8 +583,8 @@ func c21HashRing(r *vsched.Report) {
 // ---------------------------------------------------------------------------------------------
 
 func c21HashRouter(t *testing.T, r *vsched.Report) {
-	sizes := vsched.Pick([]int{2, 3, 4}, []int{2, 3, 4, 5, 6})
-	nKeys := vsched.Pick(16, 48)
+	sizes := vsched.Pick([]int{2, 3, 4}, []int{2, 3, 4, 5, 6, 7, 8})
+	nKeys := vsched.Pick(16, 128)
 	keys := c21Keys(nKeys)
 	extractor := func(msg any) string {
 		if m, ok := msg.(*c21Msg); ok {
